@@ -93,29 +93,37 @@ mod verif_filter {
     macro_rules! unary { ($n:ident, $a:expr) => { #[kani::proof] fn $n() { unary($a); } }; }
     unary!(unary_none, 9); unary!(unary_null, 0); unary!(unary_bool, 1); unary!(unary_int, 2); unary!(unary_float, 3);
 
-    // comparisons on integers agree with the integers; <, >= and >, <= are complementary whenever comparable
-    fn cmp(k1: u8, k2: u8) {
+    // comparisons on integers agree with the integers; <, >= and >, <= are complementary whenever comparable.
+    // One operator PAIR per harness (part: 0 = Lt/Ge, 1 = Gt/Le, 2 = Eq/Ne): keeps each formula small (float partial_cmp is costly).
+    fn cmp(part: u8, k1: u8, k2: u8) {
         let (l, r) = (val(k1), val(k2));
         let p = pred();
-        let lt = p.eval_binary_op(&l, BinaryFilterOp::Lt, &r);
-        let ge = p.eval_binary_op(&l, BinaryFilterOp::Ge, &r);
-        let gt = p.eval_binary_op(&l, BinaryFilterOp::Gt, &r);
-        let le = p.eval_binary_op(&l, BinaryFilterOp::Le, &r);
-        assert!(lt.is_some() == ge.is_some() && gt.is_some() == le.is_some() && lt.is_some() == gt.is_some());
-        if lt.is_some() {
-            assert!(truthy(&lt) != truthy(&ge));
-            assert!(truthy(&gt) != truthy(&le));
-            assert!(!(truthy(&lt) && truthy(&gt)));
+        if part == 0 {
+            let lt = p.eval_binary_op(&l, BinaryFilterOp::Lt, &r);
+            let ge = p.eval_binary_op(&l, BinaryFilterOp::Ge, &r);
+            assert!(lt.is_some() == ge.is_some());
+            if lt.is_some() { assert!(truthy(&lt) != truthy(&ge)); }
+            if let (Value::Int64(a), Value::Int64(b)) = (&l, &r) { assert!(truthy(&lt) == (a < b) && truthy(&ge) == (a >= b)); }
+            if let (Value::Float64(a), Value::Float64(b)) = (&l, &r) { assert!(truthy(&lt) == (a < b) && truthy(&ge) == (a >= b)); }
+            kani::cover!(lt.is_some());
+        } else if part == 1 {
+            let gt = p.eval_binary_op(&l, BinaryFilterOp::Gt, &r);
+            let le = p.eval_binary_op(&l, BinaryFilterOp::Le, &r);
+            assert!(gt.is_some() == le.is_some());
+            if gt.is_some() { assert!(truthy(&gt) != truthy(&le)); }
+            if let (Value::Int64(a), Value::Int64(b)) = (&l, &r) { assert!(truthy(&gt) == (a > b) && truthy(&le) == (a <= b)); }
+            if let (Value::Float64(a), Value::Float64(b)) = (&l, &r) { assert!(truthy(&gt) == (a > b) && truthy(&le) == (a <= b)); }
+            kani::cover!(gt.is_some());
+        } else {
+            let eq = p.eval_binary_op(&l, BinaryFilterOp::Eq, &r);
+            let ne = p.eval_binary_op(&l, BinaryFilterOp::Ne, &r);
+            assert!(eq.is_some() && ne.is_some() && truthy(&eq) != truthy(&ne));
+            if let (Value::Int64(a), Value::Int64(b)) = (&l, &r) { assert!(truthy(&eq) == (a == b)); }
+            kani::cover!(truthy(&eq));
         }
-        if let (Value::Int64(a), Value::Int64(b)) = (&l, &r) {
-            assert!(truthy(&lt) == (a < b) && truthy(&le) == (a <= b) && truthy(&gt) == (a > b) && truthy(&ge) == (a >= b));
-        }
-        let eq = p.eval_binary_op(&l, BinaryFilterOp::Eq, &r);
-        let ne = p.eval_binary_op(&l, BinaryFilterOp::Ne, &r);
-        assert!(eq.is_some() && ne.is_some() && truthy(&eq) != truthy(&ne));
-        kani::cover!(lt.is_some());
         std::mem::forget(l); std::mem::forget(r);
     }
-    macro_rules! cmp { ($n:ident, $a:expr, $b:expr) => { #[kani::proof] #[kani::stub(regex::Regex::new, regex_new_stub)] #[kani::stub(regex::Regex::is_match, regex_is_match_stub)] fn $n() { cmp($a, $b); } }; }
-    cmp!(cmp_int_int, 2, 2); cmp!(cmp_float_float, 3, 3); cmp!(cmp_int_float, 2, 3); cmp!(cmp_float_int, 3, 2);
+    macro_rules! cmp { ($n:ident, $p:expr, $a:expr, $b:expr) => {
+        #[kani::proof] #[kani::stub(regex::Regex::new, regex_new_stub)] #[kani::stub(regex::Regex::is_match, regex_is_match_stub)] fn $n() { cmp($p, $a, $b); } }; }
+    //@GENERATED-CMP@
 }
